@@ -206,8 +206,9 @@ class Check:
             'coverage': coverage, 'assumptions': list(assumptions), 'wall_s': round(wall, 2),
             'violations': len(self.violations) + self.counters.get('violations_not_stored', 0),
         }
-        os.makedirs(os.path.join(VERIF, 'evidence'), exist_ok=True)
-        evp = os.path.join(VERIF, 'evidence', f'{self.pid}.json')
+        evdir = os.environ.get('VERIF_EVIDENCE_DIR') or os.path.join(VERIF, 'evidence')  # override: mutation runs only
+        os.makedirs(evdir, exist_ok=True)
+        evp = os.path.join(evdir, f'{self.pid}.json')
         tmp = evp + '.tmp'
         with open(tmp, 'w', encoding='utf-8') as f:
             json.dump(ev, f, indent=1, default=repr, ensure_ascii=True)
